@@ -153,6 +153,8 @@ def run(pid, tier, replay=None):
                 stats = m["stats"]
                 continue
             verdict.disagree(m["class"], {"hist": m["hist"], "variant": m["variant"], "step": m["step"]}, m["detail"])
+        if stats and stats.get("aborted"):       # a hang of the real code was reported as a disagreement
+            break
         if not stats or stats["cases"] != cnt[0]:
             raise vf.MachineryError("interval driver did not process every case (%s)" % name)
         checks += stats["checks"]
